@@ -7,6 +7,9 @@ Decided clauses:
       addresses (default hasher, or keys hashed by address: Module, JsObject, Gc) is order-insensitive (Trace bodies,
       retain with a predicate), sorted before use, or audited; Fx-hashed value keys are deterministic
   R3  realm swap pairing (= C07-R5) and the writers of a frame's realm
+  R4  no ordering by a history-dependent identity: nothing sorts, searches or keys an ordered container by
+      boa_interner::Sym (its Ord is the interner index = the order in which this context first saw the identifiers,
+      shared by all realms and scripts of the context) or by an address-like key (JsObject, Gc, Module, raw pointers)
 Not decided: byte-identical traces; absence of other address dependence.
 """
 import re
@@ -170,8 +173,85 @@ def r3(db, rep):
     rep.floor("R3", "realm swap sites", n, 2)
 
 
+ORDERING_METHODS = {"sort", "sort_unstable", "sort_by_key", "sort_unstable_by_key", "sort_by_cached_key", "binary_search",
+                    "binary_search_by_key", "max", "min", "max_by_key", "min_by_key", "is_sorted", "cmp", "partial_cmp",
+                    "select_nth_unstable"}
+HISTORY_IDENTITIES = ("boa_interner::sym::Sym", "boa_engine::object::jsobject::JsObject", "boa_gc::pointers::gc::Gc<",
+                      "boa_engine::module::Module", "*const ", "*mut ", "boa_engine::realm::Realm")
+AUDITED_ORDERINGS = {
+    "Sym::partial_cmp": "derived PartialOrd of Sym itself (the definition, not a use)",
+    "Sym::cmp": "derived Ord of Sym itself",
+}
+
+
+def _generic_args(g):
+    out, depth, cur = [], 0, ""
+    for ch in g or "":
+        if ch in "<([":
+            depth += 1
+        elif ch in ">)]":
+            depth -= 1
+        if ch == "," and depth == 0:
+            out.append(cur.strip())
+            cur = ""
+        else:
+            cur += ch
+    if cur.strip():
+        out.append(cur.strip())
+    return out
+
+
+def r4(db, rep):
+    rep.rule("R4", "no sort / binary search / min / max / ordered container keyed by an interner symbol or an address-like "
+                   "identity: such an order depends on what the context parsed or allocated before")
+    examined = 0
+    k = {}
+    for f in db.fns.values():
+        if f.krate not in ("boa_engine", "boa_ast", "boa_parser", "boa_interner", "boa_gc", "boa_string"):
+            continue
+        if not (f.mentions("sort") or f.mentions("BTree") or f.mentions("binary_search") or f.mentions("::max") or
+                f.mentions("::min") or f.mentions("cmp::Ord")):
+            continue
+        if f.span.endswith("tests.rs") or "/tests" in f.span or "::tests::" in f.id:
+            continue
+        name = cname(f.id).split("::{closure")[0]
+        for b, t in f.calls():
+            c = t.get("rf") or callee(t) or ""
+            m = c.split("::")[-1]
+            ordered_container = ("btree::map::BTreeMap" in c or "btree::set::BTreeSet" in c) and m in ("insert", "entry", "new",
+                                                                                                           "from_iter", "extend")
+            if m not in ORDERING_METHODS and not ordered_container:
+                continue
+            ga = _generic_args(t.get("g"))
+            if m.endswith(("_by_key", "_by_cached_key")):
+                cand = ga[1:2]            # <T, K, F>: the order is the key's
+            elif "<impl [T]>" in c or "slice::" in c or ordered_container or "iter::traits" in c or \
+                    m in ("cmp", "partial_cmp", "max", "min"):
+                cand = ga[:1]
+            else:
+                continue
+            examined += 1
+            hit = [x for x in cand for idt in HISTORY_IDENTITIES
+                   if x.replace("&", "").strip() == idt or x.replace("&", "").strip().startswith(idt) or
+                   (x.startswith("(") and idt in x)]
+            if not hit:
+                continue
+            if name in AUDITED_ORDERINGS:
+                rep.ob("R4", f"{name}:{m}:audited", True, loc=f.loc(b))
+                continue
+            k[name] = k.get(name, -1) + 1
+            rep.ob("R4", f"{name}:{m}:{k[name]}:history-free-order", False,
+                   f"{name} orders values of type {hit[0]} with {m} ({f.loc(b)}): for Sym that is the interner index, i.e. the "
+                   f"order in which this context first saw the identifiers — the result (e.g. the creation order of global "
+                   f"bindings, hence Object.keys(globalThis)) then depends on scripts evaluated earlier, also in other realms",
+                   loc=f.loc(b))
+    rep.analysed["R4.ordering calls examined"] = examined
+    rep.floor("R4", "ordering calls examined (sort/search/min/max/ordered containers)", examined, 40)
+
+
 def run(db, rep, tier):
     r1(db, rep)
     r2(db, rep)
     r3(db, rep)
+    r4(db, rep)
     rep.assumptions += ["FxHasher is a deterministic function of the key bytes; Sym/u32/JsString keys hash by value"]
